@@ -273,7 +273,14 @@ class Interface(object):
         if key in self.method_id_map:
             c = self.method_id_map[key].parent_class
             if c is None:
-                pass
+                # the same descriptor may be processed more than once, but
+                # two functions can't answer to the same name.
+                om = self.method_id_map[key]
+                if om is not method and om.function is not method.function:
+                    raise ValueError("\nThe message %r defined in both "
+                        "'%s.%s' and '%s.%s'" % (method.name,
+                          s.__module__, six.get_function_name(method.function),
+                          s.__module__, six.get_function_name(om.function)))
 
             elif c is s:
                 pass
